@@ -166,7 +166,9 @@ pub fn oracle(case: &Case, res: &SpResult) -> (Option<(String, String)>, Vec<&'s
     }
     // Nagle off, no probing: after every write everything buffered is sent at that instant as long
     // as slow start and the window allow it
-    if !c.sock.nagle && !probing && !any_retx && !case.window_limited {
+    // (with size probing an outstanding probe holds later data back by design — "at most one probe, and it is the
+    // newest segment": instants at which a segment larger than every acknowledged one is outstanding are exempt)
+    if !c.sock.nagle && !any_retx && !case.window_limited {
         let mss = c.sock.min_payload() as u64;
         // "whenever the connection next processes an event everything buffered is sent": evaluated
         // at every instant at which a peer packet is delivered (an event the connection processes)
@@ -195,8 +197,12 @@ pub fn oracle(case: &Case, res: &SpResult) -> (Option<(String, String)>, Vec<&'s
             if written_before > sent {
                 let acked: u64 = lens.iter().filter(|(k, _)| *k <= acked_rel).map(|(_, l)| *l).sum();
                 let outstanding: u64 = lens.iter().filter(|(k, _)| *k > acked_rel).map(|(_, l)| *l).sum();
-                let next = (written_before - sent).min(mss);
-                if outstanding + next <= 2 * mss + acked {
+                // (the next cut may be a size probe: up to the link's largest payload)
+                let next = (written_before - sent).min(if probing { c.sock.max_payload() as u64 } else { mss });
+                let proven = lens.iter().filter(|(k, _)| *k <= acked_rel).map(|(_, l)| *l).max().unwrap_or(0).max(mss);
+                let real_probe_outstanding = lens.iter().any(|(k, l)| *k > acked_rel && *l > proven);
+                if real_probe_outstanding { labels.insert("probe_outstanding_at_event"); }
+                if outstanding + next <= 2 * mss + acked && !real_probe_outstanding {
                     viol!("nagle-off-held-back", "Nagle is off: after the peer packet delivered at t={t} us was processed {} bytes written earlier stay untransmitted although only {} bytes are outstanding (slow-start allowance 2*{} + {} acked) and the window is huge", written_before - sent, outstanding, mss, acked);
                 }
                 labels.insert("cwnd_limited_at_event");
